@@ -174,6 +174,8 @@ def unsplit_netloc(username, password, hostname, port):
         auth = username + ":" + password
     elif username:
         auth = username
+    elif password:
+        auth = ":" + password
     else:
         auth = None
 
